@@ -139,15 +139,26 @@ C02_NextSnapshot ==
 (* C03 - gang integrity (one pod set per job in these scenarios).          *)
 (* Judged at the end of a cycle in histories without API write failures.   *)
 (***************************************************************************)
+RelevantB(x) == BindOK(x) \/ EvictOK(x)
+LastRelB(p) == LET xs == {x \in Dec : D[x].p = p /\ RelevantB(x)} IN IF xs = {} THEN 0 ELSE Max(xs)
 ActiveAfter(j) ==
-  Cardinality({p \in PodsOf(j) : (ActiveAtStart(p) /\ p \notin EvictedNow) \/ p \in BoundNowPods})
+  Cardinality({p \in PodsOf(j) : LET x == LastRelB(p) IN IF x = 0 THEN ActiveAtStart(p) ELSE BindOK(x)})
 JobsBound   == {JobOf(p) : p \in BoundNowPods}
 JobsEvicted == {JobOf(p) : p \in EvictedNow}
 AtCycleEnd == action = "end"
 C03_BindReachesMin ==
-  (AtCycleEnd /\ ~failed) => \A j \in JobsBound : ActiveAfter(j) >= J(j).min
+  (AtCycleEnd /\ ~failed) => \A j \in JobsBound \ JobsEvicted : ActiveAfter(j) >= J(j).min
+\* evicted pods of j that the same statement nominates again ("moved" victims: the solver re-places
+\* victims, consolidation moves pods)
+MovedPods(j) == {p \in PodsOf(j) \cap EvictedNow :
+                  \E i, k \in Dec : EvictOK(i) /\ D[i].p = p /\ Piped(k) /\ D[k].p = p /\ D[k].stmt = D[i].stmt}
+OnlyMoved(j) == (PodsOf(j) \cap EvictedNow) \subseteq MovedPods(j)
 C03_EvictShape ==
-  (AtCycleEnd /\ ~failed) => \A j \in JobsEvicted : ActiveAfter(j) = 0 \/ ActiveAfter(j) >= J(j).min
+  (AtCycleEnd /\ ~failed) => \A j \in JobsEvicted : ActiveAfter(j) = 0 \/ ActiveAfter(j) >= J(j).min \/ OnlyMoved(j)
+\* the same for jobs all of whose evicted pods are moved: the pods that stay plus the moved ones
+\* still leave the gang partially running until the moved pods are back
+C03_EvictShapeMoved ==
+  (AtCycleEnd /\ ~failed) => \A j \in JobsEvicted : OnlyMoved(j) => (ActiveAfter(j) = 0 \/ ActiveAfter(j) >= J(j).min)
 \* if part of a gang has to wait for releasing capacity, the whole gang is nominated: a statement
 \* never both binds and nominates pods of a job that is below its minimum without those binds
 ActiveBefore(j, i) == \* really active pods of j just before decision i
@@ -166,10 +177,12 @@ RECURSIVE Ancestors(_)
 Ancestors(q) == IF q = 0 THEN {} ELSE {q} \cup (IF Q(q).parent = q THEN {} ELSE Ancestors(Q(q).parent))
 InSubtree(p, q) == q \in Ancestors(J(JobOf(p)).queue)
 \* pods charged to the queues after the first i decisions
+\* (the newest bind / nomination / eviction of a pod decides; a pod bound and then evicted in the same
+\*  cycle is not charged)
+Relevant(x) == BindOK(x) \/ Piped(x) \/ EvictOK(x)
+LastRel(p, i) == LET xs == {x \in 1..i : D[x].p = p /\ Relevant(x)} IN IF xs = {} THEN 0 ELSE Max(xs)
 ChargedAfter(i) ==
-  {p \in Pods :
-     \/ ActiveAtStart(p) /\ ~\E x \in 1..i : EvictOK(x) /\ D[x].p = p
-     \/ \E x \in 1..i : (BindOK(x) \/ Piped(x)) /\ D[x].p = p}
+  {p \in Pods : LET x == LastRel(p, i) IN IF x = 0 THEN ActiveAtStart(p) ELSE ~EvictOK(x)}
 QGpu(q, i, np) == Sum({p \in ChargedAfter(i) : InSubtree(p, q) /\ (np => J(JobOf(p)).preempt = 0)}, GpuMilli)
 QCpu(q, i, np) == Sum({p \in ChargedAfter(i) : InSubtree(p, q) /\ (np => J(JobOf(p)).preempt = 0)}, LAMBDA p : P(p).cpu)
 QMem(q, i, np) == Sum({p \in ChargedAfter(i) : InSubtree(p, q) /\ (np => J(JobOf(p)).preempt = 0)}, LAMBDA p : P(p).mem)
@@ -234,14 +247,30 @@ C06_Consolidation ==
      \E k \in Dec : /\ Piped(k) /\ D[k].stmt = D[i].stmt /\ D[k].p = D[i].p
                      \* another node - or, for a sharer, another GPU device of the same node
                      /\ (D[k].n # S[D[i].p].node \/ SeqToSet(D[k].groups) # SeqToSet(S[D[i].p].groups))
-\* minimum runtime: a job inside the min-runtime of its (leaf) queue is not a victim, unless it
-\* is elastic and stays at or above its minimum. Only the leaf-queue setting is modelled; start
-\* times are hours away from the limits.
-MinRt(j, kind) == IF kind = "preempt" THEN Q(J(j).queue).minRtP ELSE Q(J(j).queue).minRtR
+\* minimum runtime (docs/plugins/minruntime.md). Preempt: walk up from the victim's queue until a
+\* preemptMinRuntime is set. Reclaim (default method "lca"): take the lowest common ancestor of
+\* reclaimer and victim queues, step one queue down towards the victim, and from there walk up
+\* until a reclaimMinRuntime is set. 0 = not set / plugin default. A job still inside its resolved
+\* minimum runtime is not a victim, unless it is elastic and stays at or above its minimum.
+\* Start times are hours away from the limits; judged in the first cycle (later start times are
+\* not observable from the API objects the harness projects).
+RECURSIVE ResolveUp(_, _)
+ResolveUp(q, kind) ==
+  IF q = 0 THEN 0
+  ELSE LET v == IF kind = "preempt" THEN Q(q).minRtP ELSE Q(q).minRtR IN
+       IF v > 0 THEN v ELSE IF Q(q).parent = q THEN 0 ELSE ResolveUp(Q(q).parent, kind)
+StepDown(vq, pq) ==
+  LET common == Ancestors(vq) \cap Ancestors(pq)
+      cands  == {x \in Ancestors(vq) \ common : Q(x).parent \in common \cup {0}}
+  IN IF cands = {} THEN vq ELSE CHOOSE x \in cands : TRUE
+ResolvedMinRt(i) ==
+  LET j == JobOf(D[i].p) IN
+    IF D[i].mdact = "preempt" THEN ResolveUp(J(j).queue, "preempt")
+    ELSE IF D[i].pre \in Jobs THEN ResolveUp(StepDown(J(j).queue, J(D[i].pre).queue), "reclaim") ELSE 0
 C06_MinRuntime ==
-  AtCycleEnd => \A i \in Dec : (IsVictimEvict(i) /\ D[i].mdact \in {"reclaim", "preempt"}) =>
+  (AtCycleEnd /\ ~failed /\ cyc = 1) => \A i \in Dec : (IsVictimEvict(i) /\ D[i].mdact \in {"reclaim", "preempt"}) =>
      LET j == JobOf(D[i].p) IN
-       (MinRt(j, D[i].mdact) > 0 /\ J(j).lastStart >= 0 /\ J(j).lastStart < MinRt(j, D[i].mdact) /\ cyc = 1)
+       (ResolvedMinRt(i) > 0 /\ J(j).lastStart >= 0 /\ J(j).lastStart < ResolvedMinRt(i))
          => ActiveAfter(j) >= J(j).min
 
 (***************************************************************************)
@@ -265,7 +294,7 @@ CanonOf(SS) == [j \in Jobs |-> [x \in ({"pending", "running", "other"} \X (0..Le
                /\ (IF SS[p].st = "pending" THEN 0 ELSE SS[p].node) = x[2]})]]
 EvictionsBetween(a, b) == Sum((a + 1)..b, LAMBDA k : hist[k].ev)
 C15_NoLasso ==
-  scen.cfg.env = "closed" =>
+  (scen.cfg.env = "closed" /\ ~failed) =>
     \A a, b \in 1..Len(hist) : (a < b /\ hist[a].canon = hist[b].canon) => EvictionsBetween(a, b) = 0
 
 (***************************************************************************)
